@@ -19,6 +19,8 @@ func propC20(r *Report, tier string) {
 	ruleNestedSelection(r, "K5-nested-selection")
 	ruleNestedAdvanceBuffered(r, "K12-nested-advance-buffered")
 	ruleCompoundSwitchCoverage(r, "K13-compound-coverage")
+	rulePivotFixedDuringAlignment(r, "K14-pivot-fixed-during-alignment")
+	ruleParallelSlotsUpdatedTogether(r, "K14-parallel-slots", "search/searcher", "NestedConjunctionSearcher", "currs", []string{"currAncestors", "currKeys"})
 	r.Floor("K5dep-nested-deletes", 1)
 	r.Floor("K5-nested-fold", 3)
 	r.Floor("K5-nested-selection", 4)
